@@ -151,7 +151,10 @@ bool build_fixtures(const secp256k1_context *ctx, uint64_t inseed, Fixtures &fx)
       }
       g.fill(fx.rp_nonce, 32); g.fill(fx.rp_msg, sizeof fx.rp_msg); g.fill(fx.rp_extra, sizeof fx.rp_extra);
       fx.rp_len = sizeof fx.rp_proof;
-      FX(secp256k1_rangeproof_sign(ctx, fx.rp_proof, &fx.rp_len, 0, &fx.commit[1], fx.blind[1], fx.rp_nonce, 0, 32, fx.value[1], fx.rp_msg, sizeof fx.rp_msg, fx.rp_extra, sizeof fx.rp_extra, &fx.gen)); }
+      { static const int mbits[4] = {0, 8, 32, 40};
+        int rp_exp = (int)((inseed >> 3) % 4) - 1, rp_minbits = mbits[(inseed >> 5) % 4];   // proof shape varies with the run: public value, 1..3 digit exponents, ring counts
+        size_t mlen = rp_exp < 0 ? 0 : sizeof fx.rp_msg;
+        FX(secp256k1_rangeproof_sign(ctx, fx.rp_proof, &fx.rp_len, 0, &fx.commit[1], fx.blind[1], fx.rp_nonce, rp_exp, rp_minbits, fx.value[1], fx.rp_msg, mlen, fx.rp_extra, sizeof fx.rp_extra, &fx.gen)); } }
     // surjection: output tag equals input tag 1
     { for (int i = 0; i < SJ_INPUTS; i++) g.fill(fx.sj_tags[i].data, 32);
       fx.sj_tags[SJ_INPUTS] = fx.sj_tags[1];
